@@ -88,6 +88,11 @@ func runC18(r *R) {
 			selected = true
 		case "Unselect", "Close":
 			selected = false
+		case "Create", "Delete", "Subscribe", "Unsubscribe", "Status":
+			// a string argument longer than the LITERAL- limit outside APPEND (the scripted server accepts any size)
+			if t.Choose(5) == 0 {
+				o.S[0] = strings.Repeat("m", 4090+t.Choose(12)) + []string{"", "é"}[t.Choose(2)]
+			}
 		}
 		ops = append(ops, o)
 	}
